@@ -36,6 +36,138 @@ type c12Input struct {
 	// NonASCII: the random decorations are comments with multi-byte UTF-8 text (positions are byte
 	// offsets: a comment of n runes and m > n bytes occupies m positions)
 	NonASCII bool `json:"non_ascii_decorations,omitempty"`
+	// Edit: function declarations that only a tree edit produces are appended to every file after decorating:
+	// "stubs" = for every method of every interface type of the file a method declaration whose Type is a
+	// clone (dst.Clone) of the interface method's FuncType (as parsed: Type.Func == false), with a receiver, an
+	// empty body and a doc comment in Decs.Start; "hand" = declarations built by hand, FuncType literals without
+	// Func (with / without receiver, parameters, results) and one with Func: true, each with a doc comment.
+	Edit string `json:"edit,omitempty"`
+}
+
+// c12ApplyEdit: see c12Input.Edit
+func c12ApplyEdit(f *dst.File, mode string) {
+	doc := func(fd *dst.FuncDecl, text string) *dst.FuncDecl {
+		fd.Decs.Before = dst.EmptyLine
+		fd.Decs.After = dst.NewLine
+		fd.Decs.Start.Append(text)
+		return fd
+	}
+	switch mode {
+	case "stubs":
+		var add []dst.Decl
+		dst.Inspect(f, func(n dst.Node) bool {
+			ts, ok := n.(*dst.TypeSpec)
+			if !ok {
+				return true
+			}
+			it, ok := ts.Type.(*dst.InterfaceType)
+			if !ok || it.Methods == nil {
+				return true
+			}
+			for _, m := range it.Methods.List {
+				ft, ok := m.Type.(*dst.FuncType)
+				if !ok || len(m.Names) != 1 {
+					continue
+				}
+				fd := &dst.FuncDecl{
+					Recv: &dst.FieldList{Opening: true, Closing: true, List: []*dst.Field{{Names: []*dst.Ident{dst.NewIdent("stub")}, Type: &dst.StarExpr{X: dst.NewIdent("Stub" + ts.Name.Name)}}}},
+					Name: dst.NewIdent(m.Names[0].Name),
+					Type: dst.Clone(ft).(*dst.FuncType),
+					Body: &dst.BlockStmt{},
+				}
+				add = append(add, doc(fd, "// "+m.Names[0].Name+" implements "+ts.Name.Name+"."))
+			}
+			return true
+		})
+		f.Decls = append(f.Decls, add...)
+	case "hand":
+		intT := func() dst.Expr { return dst.NewIdent("int") }
+		f.Decls = append(f.Decls,
+			doc(&dst.FuncDecl{Name: dst.NewIdent("HandA"), Type: &dst.FuncType{Params: &dst.FieldList{Opening: true, Closing: true}}, Body: &dst.BlockStmt{}}, "// HandA: no Func flag, no parameters."),
+			doc(&dst.FuncDecl{Name: dst.NewIdent("HandB"), Type: &dst.FuncType{
+				Params:  &dst.FieldList{Opening: true, Closing: true, List: []*dst.Field{{Names: []*dst.Ident{dst.NewIdent("x"), dst.NewIdent("y")}, Type: intT()}}},
+				Results: &dst.FieldList{List: []*dst.Field{{Type: intT()}}},
+			}, Body: &dst.BlockStmt{List: []dst.Stmt{&dst.ReturnStmt{Results: []dst.Expr{dst.NewIdent("x")}}}}}, "/* HandB: no Func flag */"),
+			doc(&dst.FuncDecl{
+				Recv: &dst.FieldList{Opening: true, Closing: true, List: []*dst.Field{{Names: []*dst.Ident{dst.NewIdent("r")}, Type: dst.NewIdent("HandR")}}},
+				Name: dst.NewIdent("HandC"), Type: &dst.FuncType{Params: &dst.FieldList{Opening: true, Closing: true}, Results: &dst.FieldList{Opening: true, Closing: true, List: []*dst.Field{{Names: []*dst.Ident{dst.NewIdent("err")}, Type: dst.NewIdent("error")}}}},
+				Body: &dst.BlockStmt{List: []dst.Stmt{&dst.ReturnStmt{}}}}, "// HandC: a method, no Func flag."),
+			doc(&dst.FuncDecl{Name: dst.NewIdent("HandD"), Type: &dst.FuncType{Func: true, Params: &dst.FieldList{Opening: true, Closing: true}}, Body: &dst.BlockStmt{}}, "// HandD: with the Func flag."),
+			doc(&dst.FuncDecl{Name: dst.NewIdent("handE"), Type: &dst.FuncType{Params: &dst.FieldList{Opening: true, Closing: true}}}, "// handE: a declaration without a body."),
+		)
+	}
+}
+
+// nodeStarts: the start (Pos()) of every node, comment nodes aside, in traversal order
+func nodeStarts(f *ast.File) []posItem {
+	var out []posItem
+	ast.Inspect(f, func(n ast.Node) bool {
+		switch n.(type) {
+		case nil:
+			return false
+		case *ast.CommentGroup, *ast.Comment:
+			return false
+		}
+		out = append(out, posItem{fmt.Sprintf("%T.Pos()", n), n.Pos()})
+		return true
+	})
+	return out
+}
+
+// unsetToken: a position field that a fresh parse of the printed text has (the token is in the text)
+// is set in the restored ast too (File.FileStart / FileEnd are not tokens; fields of comment nodes are
+// not in the lists).  Two fields are never set by the restorer, on any tree: RangeStmt.Range (the field is
+// newer than the library) and ChanType.Arrow of a receive-only channel (the generated case sets it for
+// chan<- only; go/parser sets Arrow == Begin for <-chan).  They are the recorded finding
+// token-position-never-assigned: reported under that key, and only when nothing else is wrong with the file
+// (neverSet = true selects them, false everything else).
+var c12NeverSet = map[string]bool{"*ast.RangeStmt.Range": true, "*ast.ChanType.Arrow": true}
+
+func unsetToken(restored, fresh []posItem, neverSet bool) string {
+	if len(restored) != len(fresh) {
+		return ""
+	}
+	for i := range restored {
+		if restored[i].key != fresh[i].key {
+			return ""
+		}
+	}
+	for i := range restored {
+		if strings.HasPrefix(restored[i].key, "*ast.File.File") || c12NeverSet[restored[i].key] != neverSet {
+			continue
+		}
+		if fresh[i].p.IsValid() && !restored[i].p.IsValid() {
+			return fmt.Sprintf("%s (field #%d) is token.NoPos in the restored ast; the printed text has the token (a fresh parse has position %d there)", restored[i].key, i, fresh[i].p)
+		}
+	}
+	return ""
+}
+
+// startBeforeParts: go/ast's own notion of where a node starts: Pos() of a node is not after Pos() of
+// any of its (non-comment) children
+func startBeforeParts(f *ast.File) string {
+	var stack []ast.Node
+	var bad string
+	ast.Inspect(f, func(n ast.Node) bool {
+		if n == nil {
+			stack = stack[:len(stack)-1]
+			return false
+		}
+		switch n.(type) {
+		case *ast.CommentGroup, *ast.Comment:
+			stack = append(stack, n)
+			return true
+		}
+		if len(stack) > 0 && bad == "" {
+			p := stack[len(stack)-1]
+			if p.Pos().IsValid() && n.Pos().IsValid() && n.Pos() < p.Pos() {
+				bad = fmt.Sprintf("%T.Pos() = %d lies after the start %d of its part %T", p, p.Pos(), n.Pos(), n)
+			}
+		}
+		stack = append(stack, n)
+		return true
+	})
+	return bad
 }
 
 // the decoration pools of c12Check
@@ -216,6 +348,7 @@ func posOrderMismatch(restored, fresh []posItem) string {
 }
 
 func c12Check(in c12Input) (key, what string) {
+	neverAssigned := ""
 	rnd := rand.New(rand.NewSource(in.Seed))
 	fset := token.NewFileSet()
 	type span struct{ base, size int }
@@ -257,6 +390,9 @@ func c12Check(in c12Input) (key, what string) {
 				}
 				d[i], d[j] = d[j], d[i]
 			}
+		}
+		if in.Edit != "" {
+			c12ApplyEdit(f, in.Edit)
 		}
 		var af *ast.File
 		restoreOne := func() {
@@ -360,6 +496,16 @@ func c12Check(in c12Input) (key, what string) {
 			}
 			return k, fmt.Sprintf("file %d: %s", fi, m)
 		}
+		if m := unsetToken(posItems(af), posItems(pf), false); m != "" {
+			return "c12-token-unset", fmt.Sprintf("file %d: %s", fi, m)
+		}
+		if m := startBeforeParts(af); m != "" && startBeforeParts(pf) == "" {
+			return "c12-node-start", fmt.Sprintf("file %d: %s", fi, m)
+		}
+		// ... and so are the starts of the nodes (ast.Node.Pos()) together with the position fields
+		if m := posOrderMismatch(append(nodeStarts(af), posItems(af)...), append(nodeStarts(pf), posItems(pf)...)); m != "" {
+			return "c12-order", fmt.Sprintf("file %d: %s", fi, m)
+		}
 		a, b := orderedItems(af), orderedItems(pf)
 		if len(a) != len(b) {
 			return "c12-order", fmt.Sprintf("file %d: restored ast has %d identifiers/literals/comments, fresh parse of its print %d", fi, len(a), len(b))
@@ -368,6 +514,9 @@ func c12Check(in c12Input) (key, what string) {
 			if a[i] != b[i] {
 				return "c12-order", fmt.Sprintf("file %d: item %d by position is %q in the restored ast, %q in a fresh parse of the printed text", fi, i, a[i], b[i])
 			}
+		}
+		if m := unsetToken(posItems(af), posItems(pf), true); m != "" && neverAssigned == "" {
+			neverAssigned = fmt.Sprintf("file %d: %s", fi, m)
 		}
 	}
 	// files restored earlier keep their position space while later files are restored
@@ -387,11 +536,14 @@ func c12Check(in c12Input) (key, what string) {
 			return "c12-later-restore", fmt.Sprintf("file %d: prints differently after later files were restored into the same FileSet", k.fi)
 		}
 	}
+	if neverAssigned != "" {
+		return "token-position-never-assigned", neverAssigned
+	}
 	return "", ""
 }
 
 func c12Prop(c *Ctx) {
-	c.Res.Rule = "groups of 1-4 sources (hand corpus + $GOROOT/src sample) randomly decorated (density 1/3, 1/8 or none) and restored into one shared FileSet, + sources whose comments / strings / identifiers contain multi-byte UTF-8 text, alone and in groups, with multi-byte comment decorations; non-trivial = distinct (sources, seed, density)"
+	c.Res.Rule = "groups of 1-4 sources (hand corpus + $GOROOT/src sample) randomly decorated (density 1/3, 1/8 or none) and restored into one shared FileSet, + sources whose comments / strings / identifiers contain multi-byte UTF-8 text, alone and in groups, with multi-byte comment decorations, + edited trees (method declarations made from clones of interface methods, hand-built FuncDecls without the Func flag, each with a doc comment): no printed token without a position, Pos() of a node not after its parts, rank order of node starts and position fields as in a fresh parse; non-trivial = distinct (sources, seed, density)"
 	srcs := oracleSources(c, c.N(24), 8000)
 	for i := 0; i < c.N(120); i++ {
 		n := 1 + c.Rng.Intn(4)
@@ -414,6 +566,7 @@ func c12Prop(c *Ctx) {
 			c.Res.Samples = append(c.Res.Samples, map[string]interface{}{"srcs": cl, "seed": in.Seed, "density": in.Dens})
 		}
 	}
+	c12Edited(c, srcs)
 	c12NonASCII(c, srcs)
 	c04KnownStartNewline(c)
 	c12ExtrasKnown(c)
@@ -425,6 +578,44 @@ func c12Prop(c *Ctx) {
 		if key, what := c12Check(in); key != "" {
 			c.Res.fail(key, what, in)
 		}
+	}
+}
+
+// c12InterfaceSources: interface types whose methods are turned into method declarations (Edit "stubs")
+var c12InterfaceSources = []string{
+	"package a\n\nimport \"io\"\n\n// I is an interface.\ntype I interface {\n\t// M does.\n\tM(a int, b ...string) (r int, err error)\n\tN()\n\tio.Reader\n\tP(func(int) bool) <-chan int // trailing\n}\n\ntype StubI struct{}\n",
+	"package a\n\ntype (\n\tA interface{ Close() error }\n\tB interface {\n\t\tA\n\t\tRead(p []byte) (n int, err error) /* r */\n\t\tWrite(p []byte) (int, error)\n\t}\n)\n\nfunc f() {\n\ttype L interface{ Len() int }\n\tvar _ L\n}\n\nvar last = 1 // the last declaration\n",
+	"package a\n\ntype G[T any] interface {\n\tGet(k string) (T, bool)\n\tSet(k string, v T)\n\t~int | ~string\n}\n",
+}
+
+// c12Edited: trees that only edits produce (c12Input.Edit), alone (as parsed, and with block-comment
+// decorations) and in groups in one FileSet; the comparison with a fresh parse of the printed text is made
+// (Lines is false)
+func c12Edited(c *Ctx, srcs []string) {
+	erng := rand.New(rand.NewSource(c.Seed*7919 + 12)) // own stream: the samples of the other families stay as they were
+	run := func(in c12Input) {
+		c.Res.Evaluations++
+		c.Res.seen(fmt.Sprint("edit ", in.Edit, in.Seed, in.Dens, in.Reuse, len(in.Srcs)))
+		c.Res.hist("c12-edit", fmt.Sprintf("%s files=%d density=%d reuse=%v", in.Edit, len(in.Srcs), in.Dens, in.Reuse))
+		if key, what := c12Check(in); key != "" {
+			c.Res.fail(key, what, in)
+		}
+	}
+	for _, src := range c12InterfaceSources {
+		run(c12Input{Srcs: []string{src}, Seed: 1 + erng.Int63n(1<<40)*3, Edit: "stubs"})
+		run(c12Input{Srcs: []string{src}, Seed: erng.Int63(), Dens: 8, Edit: "stubs", Reuse: true})
+		run(c12Input{Srcs: []string{src}, Seed: 1 + erng.Int63n(1<<40)*3, Edit: "hand"})
+	}
+	for i := 0; i < c.N(12); i++ {
+		in := c12Input{Seed: erng.Int63(), Dens: []int{0, 3, 8}[erng.Intn(3)], Reuse: erng.Intn(2) == 0, Edit: []string{"stubs", "hand"}[i%2]}
+		for j, n := 0, 1+erng.Intn(3); j < n; j++ {
+			if erng.Intn(2) == 0 {
+				in.Srcs = append(in.Srcs, c12InterfaceSources[erng.Intn(len(c12InterfaceSources))])
+			} else {
+				in.Srcs = append(in.Srcs, srcs[erng.Intn(len(srcs))])
+			}
+		}
+		run(in)
 	}
 }
 
